@@ -95,7 +95,7 @@ impl Prop for C17 {
 
     fn gen_cases(&self, tier: Tier) -> u64 {
         match tier {
-            Tier::Quick => 640,
+            Tier::Quick => 2_000,
             Tier::Thorough => 20_000,
         }
     }
